@@ -340,6 +340,12 @@ def replay_bookkeeping(inputs):
         raise
     d = jumps.data
     rows = list(zip(d['start site'].tolist(), d['destination site'].tolist()))
+    # the recorded moves themselves (C04): with inner = outer sites and no minimal residence they are the default jumps of the state history
+    from verif.props.c04 import default_jumps
+    exp_rows = sorted((a_,) + j_[:2] for a_ in range(N) for j_ in default_jumps(states[:, a_].tolist()))
+    got_rows = sorted(zip(d['atom index'].tolist(), d['start site'].tolist(), d['destination site'].tolist()))
+    if [tuple(int(x) for x in r_) for r_ in got_rows] != [tuple(int(x) for x in r_) for r_ in exp_rows]:
+        bad.append(f'the recorded moves are not the changes of visited site of the state history: {len(got_rows)} recorded, {len(exp_rows)} expected')
     M = jumps.matrix()
     if M.shape != (n_sites, n_sites):
         bad.append(f'matrix shape {M.shape}')
@@ -404,6 +410,14 @@ def bounded_bookkeeping(tier, seed):
         if (states == states[0]).all():
             free = [k for k in range(-1, S) if k != states[0, 0] and (k == -1 or k not in states[-1, 1:])]
             states[-1, 0] = free[0]
+        if c % 4 == 2 and N >= 2 and S >= 3 and T >= 6:
+            # degenerate atoms: one that never changes state, placed first, and one whose whole history is a single direct site-to-site hop
+            states[:, 0] = -1
+            th = int(rng.integers(1, T - 1))
+            a_site, b_site = 0, 1
+            states[:th, N - 1], states[th:, N - 1] = a_site, b_site
+            for a in range(1, N - 1):
+                states[:, a] = np.where(np.isin(states[:, a], (a_site, b_site)), 2 if S > 2 else -1, states[:, a])
         inp = {'states': states.tolist(), 'n_sites': S, 'labels': labels, 'sheared': c % 2 == 1, 'lat_seed': c}
         if c % 5 == 3:
             inp['site_lattice_scale'] = 0.97  # sites given in a reference cell 3 % smaller than the simulation cell
